@@ -16,6 +16,12 @@ package main
 //   d<i>         (udp) a retransmitted copy of request item i (the same datagram again)
 //   n            the registration response to the observation S<r> that names this position
 //   s            a stray response
+//   b            (udp) a BARE piggybacked response: ACK with a response code (2.02 Deleted) and NO token, NO options, NO
+//                payload, carrying the message ID of the token-less confirmable request W<r> that names this position.
+//                It is a message with a code, not an empty acknowledgement: it must reach the application handler.
+//                Its dispatch is therefore logged where application handling begins for it - in the connection's
+//                handler (Config.Handler) - and not at the ProcessReceivedMessage hook, which it passes before
+//                udp/client.Conn.handle decides whether it is "the empty ACK of a separate response" to be discarded.
 //   o[<j>] / O[<j>]  a notification (NON / udp: CON) of observation j (default 1), sequence numbers increasing; the observe
 //                callback of the connection (net/observation: Handler.Handle -> Observation.handle -> observeFunc, on the
 //                reader loop that dispatched the notification) executes the item's program. The observations are
@@ -26,6 +32,9 @@ package main
 //   N<r>  blocking nested request (udp: NON GET), response = item r        Nx / Cx / Px: the reply never comes
 //   C<r>  (udp) blocking CONFIRMABLE nested request, piggybacked response = item r
 //   P<r>  Conn.Ping, pong = item r
+//   W<r>  (udp) Conn.WriteMessage of a CONFIRMABLE request WITHOUT token (CON DELETE, no options, no payload; RFC 7252
+//         5.3.1 allows the empty token; the application matches the reply itself): blocks in waitForAcknowledge until
+//         the acknowledgement = item r, kind b, has been handled by the socket reader
 //   S<r>  Conn.DoObserve (the handler registers an observation of its own: blocks until the registration response has
 //         been dispatched), registration response = item r, kind n (2.05 with an Observe option; udp: NON request)
 // "@<d>" after a request kind (udp) places the peer's message ID d above the connection's own counter as it stood
@@ -134,7 +143,7 @@ func parseC11XItems(s string) ([]c11XItem, error) {
 	var items []c11XItem
 	for _, f := range strings.Fields(s) {
 		_, p := c11XNum(f, 0)
-		if p >= len(f) || !strings.ContainsRune("qQrapdsoOn", rune(f[p])) {
+		if p >= len(f) || !strings.ContainsRune("qQrapdsoOnb", rune(f[p])) {
 			return nil, fmt.Errorf("bad item %q", f)
 		}
 		it := c11XItem{kind: f[p]}
@@ -167,7 +176,7 @@ func parseC11XItems(s string) ([]c11XItem, error) {
 			}
 			p++
 			for p < len(f) {
-				if !strings.ContainsRune("NCPS", rune(f[p])) {
+				if !strings.ContainsRune("NCPSW", rune(f[p])) {
 					return nil, fmt.Errorf("bad program in %q", f)
 				}
 				op := c11XOp{kind: f[p]}
@@ -241,7 +250,7 @@ func mustC11X(layer byte, n, ctr int, script string) c11XSpec {
 func (sp c11XSpec) plan() (map[int][2]int, error) {
 	respOf := map[int][2]int{}
 	k := len(sp.items)
-	want := map[byte]byte{'N': 'r', 'C': 'a', 'P': 'p', 'S': 'n'}
+	want := map[byte]byte{'N': 'r', 'C': 'a', 'P': 'p', 'S': 'n', 'W': 'b'}
 	for i, it := range sp.items {
 		m := i + 1
 		isReq := it.kind == 'q' || it.kind == 'Q'
@@ -249,7 +258,7 @@ func (sp c11XSpec) plan() (map[int][2]int, error) {
 		if (!isReq && !isNotif && len(it.ops) > 0) || (!isReq && it.hasOff) {
 			return nil, fmt.Errorf("item %d: only requests and notifications have a program, only requests a placed message ID", m)
 		}
-		if sp.layer == 'T' && (it.kind == 'a' || it.kind == 'd' || it.kind == 'Q' || it.kind == 'O' || it.hasOff) {
+		if sp.layer == 'T' && (it.kind == 'a' || it.kind == 'b' || it.kind == 'd' || it.kind == 'Q' || it.kind == 'O' || it.hasOff) {
 			return nil, fmt.Errorf("item %d: kind not available on tcp", m)
 		}
 		if it.kind == 'd' {
@@ -259,8 +268,8 @@ func (sp c11XSpec) plan() (map[int][2]int, error) {
 		}
 		prev := m
 		for j, op := range it.ops {
-			if sp.layer == 'T' && op.kind == 'C' {
-				return nil, fmt.Errorf("item %d: C not available on tcp", m)
+			if sp.layer == 'T' && (op.kind == 'C' || op.kind == 'W') {
+				return nil, fmt.Errorf("item %d: C / W not available on tcp", m)
 			}
 			if op.r == 0 {
 				if j != len(it.ops)-1 {
@@ -279,7 +288,7 @@ func (sp c11XSpec) plan() (map[int][2]int, error) {
 		}
 	}
 	for i, it := range sp.items {
-		if it.kind == 'r' || it.kind == 'a' || it.kind == 'p' || it.kind == 'n' {
+		if it.kind == 'r' || it.kind == 'a' || it.kind == 'p' || it.kind == 'n' || it.kind == 'b' {
 			if _, ok := respOf[i+1]; !ok {
 				return nil, fmt.Errorf("item %d: reply to no operation", i+1)
 			}
@@ -550,12 +559,28 @@ func runC11X(sp c11XSpec) (string, bool) {
 	opWire := map[[2]int]c11XWire{} // request / ping written for operation (m, j)
 	var wireMu sync.Mutex
 	var pingWaiting [][2]int // P operations started whose ping has not been seen on the wire yet
+	var bareWaiting [][2]int // W operations started whose token-less request has not been seen on the wire yet
 	noteStarted := func(m, j int, op c11XOp) {
 		if op.kind == 'P' {
 			wireMu.Lock()
 			pingWaiting = append(pingWaiting, [2]int{m, j})
 			wireMu.Unlock()
 		}
+		if op.kind == 'W' {
+			wireMu.Lock()
+			bareWaiting = append(bareWaiting, [2]int{m, j})
+			wireMu.Unlock()
+		}
+	}
+	sawBare := func(mid int) {
+		wireMu.Lock()
+		defer wireMu.Unlock()
+		if len(bareWaiting) == 0 {
+			return
+		}
+		mj := bareWaiting[0]
+		bareWaiting = bareWaiting[1:]
+		opWire[mj] = c11XWire{mid: mid}
 	}
 	sawNested := func(tok []byte, mid int) {
 		wireMu.Lock()
@@ -625,6 +650,11 @@ func runC11X(sp c11XSpec) (string, bool) {
 					kk = setKey
 				}
 			}
+			if c11XBare(req) {
+				// application handling of a bare piggybacked response begins in the connection's handler: logged there
+				cc.ProcessReceivedMessageWithHandler(req, handler)
+				return
+			}
 			dispatched(kk, false, func() { cc.ProcessReceivedMessageWithHandler(req, handler) })
 		})
 		getMID := int32(0x2000)
@@ -638,6 +668,13 @@ func runC11X(sp c11XSpec) (string, bool) {
 			noteStarted(m, j, op)
 			if op.kind == 'P' {
 				return mc.cc.Ping(ctx)
+			}
+			if op.kind == 'W' {
+				wreq := mc.cc.AcquireMessage(ctx)
+				defer mc.cc.ReleaseMessage(wreq)
+				wreq.SetCode(codes.DELETE)
+				wreq.SetType(message.Confirmable)
+				return mc.cc.WriteMessage(wreq) // no token, no options, no payload
 			}
 			tok := c11NestToken(m, j)
 			req := mc.cc.AcquireMessage(ctx)
@@ -665,7 +702,12 @@ func runC11X(sp c11XSpec) (string, bool) {
 			return nil
 		}
 		mc.behave = func(_ *responsewriter.ResponseWriter[*client.Conn], r *pool.Message) {
-			handle(key(int(r.Type()), int(r.MessageID()), r.Token()), doOp)
+			kk := key(int(r.Type()), int(r.MessageID()), r.Token())
+			if c11XBare(r) {
+				dispatched(kk, false, func() { handle(kk, doOp) })
+				return
+			}
+			handle(kk, doOp)
 		}
 		observe = func(j int) error {
 			req := mc.cc.AcquireMessage(ctx)
@@ -737,6 +779,9 @@ func runC11X(sp c11XSpec) (string, bool) {
 			case 'a':
 				typs[i], mids[i] = int(message.Acknowledgement), w.mid
 				return encodeWire(typs[i], int(codes.Content), mids[i], w.tok, nil, []byte("ok")), key(typs[i], mids[i], w.tok), true
+			case 'b':
+				typs[i], mids[i] = int(message.Acknowledgement), w.mid
+				return encodeWire(typs[i], int(codes.Deleted), mids[i], nil, nil, nil), key(typs[i], mids[i], nil), true
 			default: // 'p'
 				typs[i], mids[i] = int(message.Reset), w.mid
 				return encodeWire(typs[i], int(codes.Empty), mids[i], nil, nil, nil), key(typs[i], mids[i], nil), true
@@ -788,6 +833,8 @@ func runC11X(sp c11XSpec) (string, bool) {
 					sawObs(w.Tok)
 				case w.Code == int(codes.Empty) && w.Typ == int(message.Confirmable):
 					sawPing(nil, w.MID)
+				case w.Code == int(codes.DELETE) && w.Typ == int(message.Confirmable) && len(w.Tok) == 0:
+					sawBare(w.MID)
 				}
 			}
 		}
@@ -1115,7 +1162,7 @@ func runC11X(sp c11XSpec) (string, bool) {
 			}
 		case 'd':
 			hang = !wait(fmt.Sprintf("dispatch of the copy %d", i), func() bool { return logged(i) })
-		case 'r', 'a', 'p', 'n':
+		case 'r', 'a', 'p', 'n', 'b':
 			mj := respOf[i]
 			hang = !wait(fmt.Sprintf("reply %d: operation %d.%d returned", i, mj[0], mj[1]), func() bool {
 				if sp.isQueueMsg(i) && !logged(i) {
@@ -1158,7 +1205,7 @@ func runC11X(sp c11XSpec) (string, bool) {
 				r = k + 5
 			}
 			ent := fmt.Sprintf("(%d, %d, %s)", m, r, coqBool(st.ret[[2]int{m, j}]))
-			if o.kind == 'P' {
+			if o.kind == 'P' || o.kind == 'W' {
 				op = append(op, ent)
 			} else {
 				on = append(on, ent)
@@ -1171,7 +1218,7 @@ func runC11X(sp c11XSpec) (string, bool) {
 	st.mu.Unlock()
 	// signals handed to the connection: acknowledgements (a) and pongs (p) among the injected items
 	for i := 1; i <= injected; i++ {
-		if kd := sp.items[i-1].kind; kd == 'a' || kd == 'p' {
+		if kd := sp.items[i-1].kind; kd == 'a' || kd == 'p' || kd == 'b' {
 			osig = append(osig, strconv.Itoa(i))
 		}
 	}
@@ -1199,7 +1246,7 @@ func runC11X(sp c11XSpec) (string, bool) {
 	}
 	for i := 1; i <= k; i++ {
 		it := sp.items[i-1]
-		if it.kind == 'a' || it.kind == 'p' {
+		if it.kind == 'a' || it.kind == 'p' || it.kind == 'b' {
 			q := 0
 			for x := i; x <= k; x++ {
 				if sp.isQueueMsg(x) {
@@ -1210,7 +1257,7 @@ func runC11X(sp c11XSpec) (string, bool) {
 		}
 		if sp.layer == 'D' {
 			mid := mids[i]
-			if i > injected && (it.kind == 'a' || it.kind == 'p') {
+			if i > injected && (it.kind == 'a' || it.kind == 'p' || it.kind == 'b') {
 				mid = 70000 + i // never built: a message ID nobody else has
 			}
 			wr = append(wr, fmt.Sprintf("(%d, (%d, %d))", i, c11XTyp(sp, i, typs), mid))
@@ -1229,6 +1276,8 @@ func runC11X(sp c11XSpec) (string, bool) {
 					hs = append(hs, fmt.Sprintf("HAck %d", r), fmt.Sprintf("HNested %d", r))
 				case 'P':
 					hs = append(hs, fmt.Sprintf("HPing %d", r))
+				case 'W':
+					hs = append(hs, fmt.Sprintf("HAck %d", r))
 				}
 			}
 			progs = append(progs, fmt.Sprintf("(%d, [%s])", i, strings.Join(hs, "; ")))
@@ -1244,6 +1293,11 @@ func runC11X(sp c11XSpec) (string, bool) {
 	return txt, hang
 }
 
+// c11XBare: a piggybacked response without token, options and payload (an ACK that carries a code)
+func c11XBare(r *pool.Message) bool {
+	return r.Type() == message.Acknowledgement && r.Code() != codes.Empty && len(r.Token()) == 0 && len(r.Options()) == 0 && r.Body() == nil
+}
+
 // c11XTyp: the message type of item i for the model's lock (known from the script even when the item was never built)
 func c11XTyp(sp c11XSpec, i int, typs []int) int {
 	switch it := sp.items[i-1]; it.kind {
@@ -1253,7 +1307,7 @@ func c11XTyp(sp c11XSpec, i int, typs []int) int {
 		return 0
 	case 'q', 'r', 's', 'o', 'n':
 		return 1
-	case 'a':
+	case 'a', 'b':
 		return 2
 	case 'p':
 		return 3
@@ -1321,6 +1375,18 @@ var c11XFixed = []c11XFixedScript{
 	{"TD", -1, "q:N2 r"},
 	{"D", -1, "Q:P3 d1 p"},
 	{"D", 1000, "q@1:P2 p"},
+	// a token-less confirmable request written by a handler (WriteMessage), answered by a BARE piggybacked response
+	// (ACK 2.02, no token / options / payload): it carries a code, so it is dispatched to the application handler
+	{"D", -1, "q:W2 b"},
+	{"D", -1, "q:W2 b q"},
+	{"D", -1, "Q:W3 q b q"},
+	{"D", -1, "q:W2W3 b b q"},
+	{"D", -1, "q:W2N3 b r"},
+	{"D", -1, "q:N4 q:W3 b r"},
+	{"D", -1, "o:W3 o b q"},
+	{"D", 1000, "q@1:W2 b q"},
+	{"D", -1, "Q:W3 d1 b q"},
+	{"D", -1, "q:Wx q"},
 	// a request of the peer whose message ID equals the ID of a ping / confirmable request that is waiting for its
 	// reply: it is not that reply
 	{"D", 1000, "q:P3 Q@1 p q"},
@@ -1388,7 +1454,7 @@ func c11XRandom(rng *Rng, maxLen int) c11XSpec {
 	var out []pend
 	blocked := 0
 	target := 3 + rng.Intn(maxLen-2)
-	replyKind := map[byte]byte{'N': 'r', 'C': 'a', 'P': 'p', 'S': 'n'}
+	replyKind := map[byte]byte{'N': 'r', 'C': 'a', 'P': 'p', 'S': 'n', 'W': 'b'}
 	items := &sp.items
 	respond := func() {
 		idx := rng.Intn(len(out))
@@ -1429,7 +1495,7 @@ func c11XRandom(rng *Rng, maxLen int) c11XSpec {
 			for j := 0; j < nops; j++ {
 				kinds := "NNPPS"
 				if sp.layer == 'D' {
-					kinds = "NNCCCCPPS"
+					kinds = "NNCCCCPPSWW"
 				}
 				it.ops = append(it.ops, c11XOp{kind: kinds[rng.Intn(len(kinds))]})
 			}
@@ -1548,7 +1614,7 @@ func c11XCases(e *Emitter, rng *Rng, thorough bool) {
 		}
 		run(c11XRandom(rng, maxLen), "rand")
 	}
-	e.Extra["x_scripts"] = fmt.Sprintf("%d scripts (%d fixed: confirmable nested requests with piggybacked ACK, placed message IDs incl. both 16-bit wraps, retransmitted copies, pings by handlers on tcp and udp, observe callbacks issuing blocking requests while further notifications arrive, observations registered by handlers / callbacks, queue 0/1/16; %d random), scripts that did not run to their end %d (of these on the quiescence witness %d, the others on the watchdog), set aside because Do refused a drawn message ID still in use %d, %.2fs", count, fixed, nrand, hangs, c11XStalls, c11XRefused, time.Since(t0).Seconds())
+	e.Extra["x_scripts"] = fmt.Sprintf("%d scripts (%d fixed: confirmable nested requests with piggybacked ACK, placed message IDs incl. both 16-bit wraps, retransmitted copies, pings by handlers on tcp and udp, observe callbacks issuing blocking requests while further notifications arrive, observations registered by handlers / callbacks, token-less confirmable requests written by handlers and answered by a bare piggybacked response (logged in the application handler), queue 0/1/16; %d random), scripts that did not run to their end %d (of these on the quiescence witness %d, the others on the watchdog), set aside because Do refused a drawn message ID still in use %d, %.2fs", count, fixed, nrand, hangs, c11XStalls, c11XRefused, time.Since(t0).Seconds())
 }
 
 func c11XOnly(e *Emitter, only string) {
